@@ -550,6 +550,56 @@ func runC10(w *World, r *Report) {
 		}
 	}
 
+	r.Rule("C10.timing-matches-handle", "every call of internal/callbacks.On in the module passes the timing constant that belongs to the handle function it passes (OnStartHandle ↔ TimingOnStart, OnStartWithStreamInputHandle ↔ TimingOnStartWithStreamInput, …): handlers are filtered through TimingChecker.Needed with that timing, so a mismatch skips a handler that wants the event and hands it to one that said it does not", 5)
+	{
+		on := w.Fn("internal/callbacks", "On")
+		pk := w.ByPath[modPath+"/internal/callbacks"]
+		n := 0
+		for _, fn := range w.RepoFuncs("callbacks", "compose", "internal/callbacks", "flow", "components", "utils", "schema") {
+			for _, c := range callsTo(fn, on) {
+				args := c.Common().Args
+				if len(args) != 4 {
+					continue
+				}
+				var hname string
+				hv := args[2]
+				if ct, ok := hv.(*ssa.ChangeType); ok {
+					hv = ct.X
+				}
+				switch h := hv.(type) {
+				case *ssa.Function:
+					hname = origin(h).Name()
+				case *ssa.MakeClosure:
+					hname = origin(h.Fn.(*ssa.Function)).Name()
+				}
+				k, isC := args[3].(*ssa.Const)
+				if hname == "" || !isC || !strings.HasSuffix(hname, "Handle") {
+					continue // a forwarded parameter: checked at the caller that supplies the pair
+				}
+				n++
+				base := strings.TrimSuffix(hname, "Handle")
+				if i := strings.Index(base, "On"); i >= 0 {
+					base = base[i:] // genericOnStartWithStreamInputHandle → OnStartWithStreamInput
+				}
+				want := "Timing" + base
+				obj, _ := pk.Types.Scope().Lookup(want).(*types.Const)
+				if obj == nil {
+					if pub := w.ByPath[modPath+"/callbacks"]; pub != nil {
+						obj, _ = pub.Types.Scope().Lookup(want).(*types.Const)
+					}
+				}
+				if obj == nil {
+					undecidedf("C10.timing-matches-handle: constant %s not found", want)
+				}
+				good := obj != nil && k.Value != nil && obj.Val().ExactString() == k.Value.ExactString()
+				r.Check(good, "C10.timing-matches-handle", fmt.Sprintf("%s: On(…, %s, timing)", w.fname(fn), hname), c.Pos(), "timing == "+want, fmt.Sprintf("the handle %s is filtered with timing %v, not %s: a handler that registered only the stream-start function is skipped (it sees an end without a start), one that registered only the plain start function is handed a stream start it declared it does not want — its nil function panics and fails the node; only units that fire their own callbacks through this entry point are affected", hname, k.Value, want))
+			}
+		}
+		if n < 5 {
+			undecidedf("C10.timing-matches-handle: only %d On(…) calls with a literal handle/timing pair found", n)
+		}
+	}
+
 	r.Rule("C10.init-detaches", "InitCallbacks installs a manager (or nil) into the context on every path: it never returns the incoming context unchanged", 1)
 	{
 		ic := w.Fn("internal/callbacks", "InitCallbacks")
